@@ -114,7 +114,7 @@ def build(spec):
     import sysloss.components as C
 
     cls = getattr(C, spec["kind"])
-    if spec.get("via_file") and CURRENT_WORLD is not None and file_representable(spec):
+    if spec.get("via_file") and not spec.get("form") and CURRENT_WORLD is not None and file_representable(spec):
         from .c13 import write_toml
 
         p = copy.deepcopy(spec["p"])
@@ -129,6 +129,26 @@ def build(spec):
     kw = copy.deepcopy(spec["p"])
     if spec.get("lim") is not None:
         kw["limits"] = copy.deepcopy(spec["lim"])
+    form = spec.get("form")
+    if form:
+        # the same numbers in another legal spelling: Python ints where the
+        # value is integral, numpy floats (a subclass of float) otherwise
+        import numpy as np
+
+        def conv(x):
+            if isinstance(x, bool) or not isinstance(x, float):
+                return x
+            if form == "int":
+                return int(x) if abs(x) < 1e15 and x == int(x) else x
+            return np.float64(x)
+
+        for k_, v_ in list(kw.items()):
+            if k_ == "limits":
+                kw[k_] = {a: [conv(b) for b in pair] for a, pair in v_.items()}
+            elif isinstance(v_, list):
+                kw[k_] = [conv(b) for b in v_]
+            else:
+                kw[k_] = conv(v_)
     return cls(spec["name"], **kw)
 
 
